@@ -27,6 +27,7 @@
 #include <fcntl.h>
 #include <signal.h>
 #include <stdio.h>
+#include <sys/resource.h>
 #include <stdlib.h>
 #include <string.h>
 #include <sys/mman.h>
@@ -36,13 +37,13 @@
 #include <errno.h>
 #include <sys/stat.h>
 #define MAXI 4
-#define MAXOPS 64
+#define MAXOPS 160
 #define MAXSTEPS 4096
 #define PRE 64
 #define POST 32
 #define PAGE 4096
 #define MIRCAP (256 * 1024)
-#define OUTMAX 600
+#define OUTMAX 12000
 
 /* ---- OS-call interception (link with -Wl,--wrap=...): counts the calls the LIBRARY makes and fails the armed one ---- */
 enum { W_MALLOC, W_MMAP, W_MREMAP, W_MUNMAP, W_OPEN, W_FSTAT, W_READ, W_CLOSE, W_FOPEN, W_FWRITE, W_FCLOSE, W_FREE, W_N };
@@ -160,6 +161,7 @@ static void run_pass(struct op *ops, int nops, unsigned char fill, struct res *r
     struct slot *s = (o->i >= 1 && o->i <= MAXI) ? &sl[o->i] : NULL;
     fired = 0; ncallog = 0;
     if (s && !s->al && strchr("DOKFGPXANTUBM", o->kind)) { x->skipped = 1; continue; }
+    if (o->kind == 'L') s = NULL;
     switch (o->kind) {
     case 'C':
       if (o->a) { s->ext = 1; s->cap = o->b; s->buf = ext_region(o->b, fill, &s->region, &s->rlen); LIB(s->al = asm_create_instance(s->buf, o->b)); }
@@ -196,6 +198,7 @@ static void run_pass(struct op *ops, int nops, unsigned char fill, struct res *r
     case 'K': asm_set_chunk_size(s->al, (size_t)o->wide); if (s->mir) asm_set_chunk_size(s->mir, (size_t)o->wide); break;
     case 'F': asm_set_offset(s->al, o->a); if (s->mir) asm_set_offset(s->mir, o->a); break;
     case 'G': asm_set_debug(s->al, o->a); break;
+    case 'L': { struct rlimit rl; getrlimit(RLIMIT_NOFILE, &rl); rl.rlim_cur = (rlim_t)o->a; setrlimit(RLIMIT_NOFILE, &rl); break; }   /* descriptor limit of this script's process */
     case 'W': tw[0] = o->a; tw[1] = o->b; tw[2] = o->c; tw[3] = o->d; tw[4] = o->e; have_tw = 1; break;
     case 'P': {
       int save = asm_get_offset(s->al);
@@ -341,6 +344,7 @@ static void print_events(const char *sid, struct op *ops, int nops, struct res *
     case 'G': if (x->skipped) { printf("{\"e\":\"Skipped\",\"i\":%d}\n", o->i); break; }
       printf("{\"e\":\"SetDebug\",\"i\":%d,\"b\":%d}\n", o->i, o->a); break;
     case 'W': break;
+    case 'L': printf("{\"e\":\"Skipped\",\"i\":0}\n"); break;
     case 'P':
       if (x->skipped) { printf("{\"e\":\"Skipped\",\"i\":%d}\n", o->i); break; }
       printf("{\"e\":\"Probe\",\"i\":%d,\"codes\":[", o->i);
@@ -439,6 +443,7 @@ int main(void) {
     case 'O': sscanf(ln + 2, "%d %15s %d", &o->i, o->s, &o->a); break;
     case 'K': sscanf(ln + 2, "%d %lld", &o->i, &o->wide); o->a = o->wide > (1LL << 30) ? (1 << 30) : (int)o->wide; break;   /* the chunk size is a size_t */
     case 'F': case 'G': sscanf(ln + 2, "%d %d", &o->i, &o->a); break;
+    case 'L': sscanf(ln + 2, "%d", &o->a); o->i = 0; break;
     case 'W': sscanf(ln + 2, "%d %d %d %d %d", &o->a, &o->b, &o->c, &o->d, &o->e); break;
     case 'A': case 'T': hex[0] = 0; sscanf(ln + 2, "%d %7s %31s %4194303s", &o->i, o->flags, o->tag, hex); break;
     case 'N': case 'U': hex[0] = 0; sscanf(ln + 2, "%d %d %7s %31s %4194303s", &o->i, &o->a, o->flags, o->tag, hex); break;
